@@ -360,6 +360,8 @@ def generic_twin_tasks(prop, root, base_keys, base_unknown):
     out = []
     for name, how in GENERIC_TWINS:
         out.append((prop, root, name, "twin", _transform_tree(root, how), (), base_keys, base_unknown))
+    for name, how in DEEP_TWINS:
+        out.append((prop, root, name, "deep-twin", _transform_tree(root, how), (), base_keys, base_unknown))
     return out
 
 
@@ -410,7 +412,7 @@ def _analyse_variant(args):
         if len(ctx.unknowns) > base_unknown:
             return {"name": name, "kind": kind, "status": "unknown", "detail": "; ".join("%s %s" % u for u in ctx.unknowns[:2])}
         return {"name": name, "kind": kind, "status": "missed", "detail": ""}
-    # twin
+    # twin / deep-twin
     if new:
         return {"name": name, "kind": kind, "status": "false-alarm", "detail": new[0].line()}
     if len(ctx.unknowns) > base_unknown:
@@ -453,9 +455,12 @@ def run_for_property(prop, root, base_ctx, seed=0, jobs=0):
             results = [_analyse_variant(t) for t in tasks]
     mutants = [r for r in results if r["kind"] in ("mutant", "seeded")]
     twins = [r for r in results if r["kind"] == "twin"]
+    deep = [r for r in results if r["kind"] == "deep-twin"]
     detected = [r for r in mutants if r["status"] in ("detected", "detected-other-rule")]
     silent = [r for r in twins if r["status"] == "silent"]
-    bad = [r for r in mutants if r not in detected] + [r for r in twins if r not in silent]
+    # a deeper rewrite may leave a rule undecided (unknown idiom), it must never be reported as a violation
+    deep_ok = [r for r in deep if r["status"] in ("silent", "unknown")]
+    bad = [r for r in mutants if r not in detected] + [r for r in twins if r not in silent] + [r for r in deep if r not in deep_ok]
     for r in bad:
         base_ctx.unknowns.append(("selftest", "%s %s: %s %s" % (r["kind"], r["name"], r["status"], r["detail"])))
     n_total = len(variants)
@@ -467,6 +472,8 @@ def run_for_property(prop, root, base_ctx, seed=0, jobs=0):
         "selftest": {
             "mutants_total": len(mutants), "mutants_detected": len(detected),
             "twins_total": len(twins), "twins_silent": len(silent),
+            "deep_twins_total": len(deep), "deep_twins_silent": len([r for r in deep if r["status"] == "silent"]),
+            "deep_twins_undecided": [r["name"] for r in deep if r["status"] == "unknown"],
             "skipped_anchor_gone": skipped,
             "results": results,
         },
